@@ -143,7 +143,7 @@ def run(ctx):
                 obs = p.evaluate(row['x'])
                 events.append({'t': row['t'], 'style': row['style'], 'x': row['x'], 'obs': obs})
                 meta.append((fam, cname, 'evaluate'))
-                if row['pr'] and row['style'] in ('min', 'right') and cname == 'default' and fam != 'hole':
+                if row['pr'] and row['style'] in (('min', 'right') if ctx.quick() else ('min',)) and cname == 'default' and fam != 'hole':
                     obs = p.print_(row['x'])
                     events.append({'t': row['t'], 'style': row['style'], 'x': row['x'], 'obs': obs})
                     meta.append((fam, cname, 'print'))
